@@ -11,8 +11,10 @@ Section Engine.
   Variable V : Type.
   (* str(arg) for int/str/float/bool arguments, __name__ for functions/builtins/bound methods; None otherwise *)
   Variable filt_str : V -> option string.
-  (* args[0] as a path if it is a str (IIDs(r_file) needs .endswith) *)
+  (* args[0] as a path if it is a non-empty str, and "args[1] is an int": coverage is accounted only for
+     location-carrying events (runtime.py: isinstance guards in call_if_exists) *)
   Variable as_path : V -> option string.
+  Variable is_iid : V -> bool.
   (* iid_to_location[iid].start_line of the id map of that file; KeyError -> 0 *)
   Variable line_of : string -> V -> nat.
 
@@ -35,9 +37,9 @@ Section Engine.
     | (k', n) :: r => if key_eqb k k' then (k', S n) :: r else (k', n) :: cov_incr k r
     end.
 
-  Record state := { dels : list delivery; cov : option covmap; crashed : bool }.
+  Record state := { dels : list delivery; cov : option covmap }.
   Definition init_state (coverage : bool) : state :=
-    {| dels := []; cov := if coverage then Some [] else None; crashed := false |}.
+    {| dels := []; cov := if coverage then Some [] else None |}.
 
   Definition is_dunder (f : string) : bool := prefixb "__" f && suffixb "__" f.
 
@@ -68,8 +70,8 @@ Section Engine.
       match args with
       | r_file :: iid :: _ =>
         match as_path r_file with
-        | None => {| dels := dels st; cov := cov st; crashed := true |}
-        | Some p => {| dels := dels st; cov := Some (cov_incr (p, line_of p iid, a_cls a) m); crashed := crashed st |}
+        | None => st
+        | Some p => if is_iid iid then {| dels := dels st; cov := Some (cov_incr (p, line_of p iid, a_cls a) m) |} else st
         end
       | _ => st
       end
@@ -80,10 +82,9 @@ Section Engine.
     match l with
     | [] => (ret, st)
     | a :: r =>
-      if crashed st then (ret, st) else
       if delivered a f args then
         let rv := a_react a (own i (dels st)) f args in
-        let st1 := {| dels := dels st ++ [ {| d_idx := i; d_hook := f; d_args := args |} ]; cov := cov st; crashed := false |} in
+        let st1 := {| dels := dels st ++ [ {| d_idx := i; d_hook := f; d_args := args |} ]; cov := cov st |} in
         cie_loop (S i) r f args (cov_step a args st1) rv
       else cie_loop (S i) r f args st ret
     end.
@@ -100,4 +101,4 @@ End Engine.
 
 Arguments d_idx {V}. Arguments d_hook {V}. Arguments d_args {V}.
 Arguments a_cls {V}. Arguments a_doc {V}. Arguments a_react {V}.
-Arguments dels {V}. Arguments cov {V}. Arguments crashed {V}.
+Arguments dels {V}. Arguments cov {V}.
